@@ -36,6 +36,11 @@ STATUS_OBJECT = {
 }
 SESSION_AFTER = {"ses_use_database": ("DB2", None), "ses_use_schema": ("DB1", "S2"), "ses_use_schema_fq": ("DB2", "S1")}
 VERBATIM = {"Mixed", "Col", "lower", "MyId", "NewQ", "s Quoted", "a"}
+# quoted names are reported exactly as written: the description of these templates, and where their object ends up
+EXPECT_DESC = {"q_cte_quoted_def": ["N"], "q_cte_quoted_ref": ["N"], "q_quoted_upper_special": ["ORDER ID", "A.B", "UNIT-PRICE", "COUNT(*)"], "ddl_create_table_q_dotted": ["ORDER ID"], "q_quoted": ["Col", "lower"]}
+# templates that only name CTEs and fully qualified objects also run in a session without a current schema
+NOSCHEMA = {"q_cte_quoted_def", "q_cte_quoted_ref", "q_cte"}
+EXPECT_TABLE = {"ddl_create_table_q_dotted": ["DB1", "S1", "S2.DOTTED"], "ddl_create_table_q": ["DB1", "S1", "NewQ"]}
 
 
 def gen_cases(tier: str, seed: int):
@@ -138,6 +143,9 @@ def run_case(case: dict, env: core.Env) -> None:
             _state["ro"] = _fresh()
         fa, ca = _state["ro"]
         fb, cb = fa, ca
+    if z["tag"] in NOSCHEMA and case["flipseed"] % 2:
+        ca = cb = fa.connect("db1")
+        env.count("cases_in_session_without_schema")
     try:
         ra = _run(ca, canon)
         rb = _run(cb, resp)
@@ -182,6 +190,17 @@ def run_case(case: dict, env: core.Env) -> None:
                 if badk and kind != "is":
                     env.witness(f"C02/dict-key-not-upper/{z['tag']}", f"{resp[-1]!r}: DictCursor keys {keys}")
                 # (agreement of the keys with cursor.description is C06's monitor)
+        if z["tag"] in EXPECT_DESC:
+            env.count("cmp_absolute_names")
+            if not rb["ok"]:
+                env.witness(f"C02/quoted-name-rejected/{z['tag']}", f"{resp[-1]!r}: {rb.get('exc')}")
+            elif rb.get("desc") != EXPECT_DESC[z["tag"]]:
+                env.witness(f"C02/quoted-name-not-verbatim/{z['tag']}", f"{resp[-1]!r}: description names {rb.get('desc')} expected {EXPECT_DESC[z['tag']]}")
+        if z["tag"] in EXPECT_TABLE and rb["ok"]:
+            env.count("cmp_absolute_names")
+            tabs = core.snapshot(fb, data=False)["tables"]
+            if EXPECT_TABLE[z["tag"]] not in [list(t) for t in tabs]:
+                env.witness(f"C02/quoted-name-not-verbatim/{z['tag']}/catalog", f"{resp[0]!r}: no table {EXPECT_TABLE[z['tag']]} among {[t for t in tabs if not t[2].startswith('_fs_')]}")
         if z["tag"] in STATUS_OBJECT and rb["ok"]:
             env.count("cmp_status_name")
             msg = str(rb["rows"])
